@@ -970,10 +970,25 @@ theorem formatToc_tail (env : Env) (st : St) (obj : Obj) :
         exact ⟨a, b, d⟩
     · exact ⟨rfl, rfl, fun _ => rfl⟩
 
+theorem splitFields_log : ∀ (fs : List Field) (st : St),
+    (splitFields st fs).errors = st.errors ∧ (splitFields st fs).reports = st.reports ∧
+    ∀ x, ((splitFields st fs).objs x).docstring = (st.objs x).docstring
+  | [], st => ⟨rfl, rfl, fun _ => rfl⟩
+  | f :: fs, st => by
+    cases ht : f.tag <;> cases ha : f.arg <;> simp only [splitFields, ht, ha]
+    all_goals first
+      | exact splitFields_log fs st
+      | (obtain ⟨a, b, c⟩ := splitFields_log fs (setPType st _ f.body); exact ⟨a, b, fun x => by rw [c]; simp⟩)
+      | (obtain ⟨a, b, c⟩ := splitFields_log fs (setParsed st _ (bodyPd f.body)); exact ⟨a, b, fun x => by rw [c]; simp⟩)
+
 theorem extractFields_of (env : Env) (s : St) (obj : Obj) (d : Text) (hd : (s.objs obj).docstring = some d) :
-    (extractFields env s obj).2 =
-      setParsed (parseDocstring env s obj d obj).2 obj (parseDocstring env s obj d obj).1 := by
+    (extractFields env s obj).2.errors = (parseDocstring env s obj d obj).2.errors ∧
+    (extractFields env s obj).2.reports = (parseDocstring env s obj d obj).2.reports ∧
+    ((extractFields env s obj).2.objs obj).docstring = some d := by
   simp only [extractFields, hd]
+  obtain ⟨a, b, c⟩ := splitFields_log (pdFields (parseDocstring env s obj d obj).1)
+    (setParsed (parseDocstring env s obj d obj).2 obj (parseDocstring env s obj d obj).1)
+  exact ⟨a, b, by rw [c]; simp [hd]⟩
 
 /-- `Docstring.reported_once`, second-call form: calling the same entry point again on the same
 object adds no report and no reported object (parse results are cached; a renderer that fails
@@ -1004,25 +1019,378 @@ theorem second_call_silent (env : Env) (st : St) (op : Op) (obj : Obj) :
     cases hd : (st.objs obj).docstring with
     | none => simp [extractFields, hd]
     | some d =>
-      have h1 := extractFields_of env st obj d hd
-      have hd2 : ((extractFields env st obj).2.objs obj).docstring = some d := by
-        rw [h1]; simp [hd]
-      have h2 := extractFields_of env (extractFields env st obj).2 obj d hd2
+      obtain ⟨he1, hr1, hd2⟩ := extractFields_of env st obj d hd
+      obtain ⟨he2, hr2, _⟩ := extractFields_of env (extractFields env st obj).2 obj d hd2
       obtain ⟨e1, r1⟩ := parseDocstring_snd env st obj obj d
       obtain ⟨e2, r2⟩ := parseDocstring_snd env (extractFields env st obj).2 obj obj d
-      have he : (extractFields env st obj).2.errors =
-          (reportErrors st obj (parseResult d (runParser env (getDocformat env obj) obj d)).2 0).errors := by
-        rw [h1]; exact e1
-      have hr : (extractFields env st obj).2.reports =
-          (reportErrors st obj (parseResult d (runParser env (getDocformat env obj) obj d)).2 0).reports := by
-        rw [h1]; exact r1
+      have he := he1.trans e1
+      have hr := hr1.trans r1
       obtain ⟨c1, c2⟩ := reportErrors_congr _ _ obj
         (parseResult d (runParser env (getDocformat env obj) obj d)).2 0 he hr
       have hid := (rep_reportErrors obj (parseResult d (runParser env (getDocformat env obj) obj d)).2).idem st
-      rw [h2]
-      simp only [setParsed_reports, setParsed_errors]
-      rw [e2, r2, c1, c2, hid]
+      rw [he2, hr2, e2, r2, c1, c2, hid.1, hid.2]
       exact ⟨hr.symm, he.symm⟩
+
+/-! ## the other rendering wrappers: type2stan, constants, signatures, decorators, the search index -/
+
+/-- `safe_to_stan(…, fallback=colorized_pyval_fallback)` raises exactly when BOTH `to_stan` and the
+`to_node` of the fallback raise — and then it is `to_node`'s exception that escapes, unreported -/
+theorem pyval_raises_iff (env : Env) (st : St) (b : Body) (ctx : Obj) (sec : Sec) (e' : Exc) :
+    (safeToStanPyval env st b ctx sec).1 = .raises e' ↔
+      (∃ e, bodyToStan env b = .raises e) ∧ bodyToNode env b = .raises e' := by
+  unfold safeToStanPyval
+  cases hs : bodyToStan env b <;> cases hn : bodyToNode env b <;> simp
+
+theorem pyval_state (env : Env) (st : St) (b : Body) (ctx : Obj) (sec : Sec) :
+    (safeToStanPyval env st b ctx sec).2 = st ∨
+    ∃ e, bodyToStan env b = .raises e ∧
+      (safeToStanPyval env st b ctx sec).2 = reportErrors st ctx [toStanError e] sec := by
+  unfold safeToStanPyval
+  cases hs : bodyToStan env b with
+  | returns s => exact .inl rfl
+  | raises e => cases hn : bodyToNode env b <;> simp
+
+theorem frame_pyval (T : Obj → Prop) (env : Env) (st : St) (b : Body) (ctx : Obj) (sec : Sec) :
+    Frame T ctx sec st (safeToStanPyval env st b ctx sec).2 := by
+  rcases pyval_state env st b ctx sec with h | ⟨e, _, h⟩ <;> rw [h]
+  · exact Frame.refl _ _ _ _
+  · exact frame_reportErrors _ _ _ _ _
+
+/-- a renderer failure inside the colorized value is reported against the object, in the wrapper's
+own section, when the fallback can be built -/
+theorem pyval_failure_reported (env : Env) (st : St) (b : Body) (ctx : Obj) (sec : Sec) (e : Exc)
+    (hs : bodyToStan env b = .raises e) (hn : bodyToNode env b = .returns) :
+    (safeToStanPyval env st b ctx sec).1 = .ok .code ∧
+    (sec, ctx) ∈ (safeToStanPyval env st b ctx sec).2.errors := by
+  simp only [safeToStanPyval, hs, hn]
+  exact ⟨trivial, reportErrors_mem _ _ _ _ (by simp)⟩
+
+/-- `format_signature` always returns: `(...)` and a report in section 'signature' on failure -/
+theorem signature_total (env : Env) (st : St) (obj : Obj) :
+    (formatSignature env st obj).1.isOk = true ∧ Frame (Only obj) obj secSignature st (formatSignature env st obj).2 := by
+  unfold formatSignature
+  split
+  · exact ⟨rfl, Frame.refl _ _ _ _⟩
+  · exact ⟨rfl, Frame.refl _ _ _ _⟩
+  · rename_i e _
+    exact ⟨rfl, frame_reportErrors (Only obj) obj secSignature st [toStanError e]⟩
+
+theorem signature_failure_reported (env : Env) (st : St) (obj : Obj) (e : Exc) (h : env.sigOut obj = some (.raises e)) :
+    (formatSignature env st obj).1 = .ok .sigBroken ∧
+    (secSignature, obj) ∈ (formatSignature env st obj).2.errors := by
+  simp only [formatSignature, h]
+  exact ⟨trivial, reportErrors_mem _ _ _ _ (by simp)⟩
+
+/-- the parameters never make the fallback of the colorized-value wrappers fail: whenever `to_stan`
+of a body raises, its `to_node` returns.  FALSE for a `ParsedTypeDocstring` (its `to_node` always
+raises NotImplementedError), which is what `type_counterexample` exploits. -/
+def FallbackSafe (env : Env) : Prop :=
+  ∀ b, (∃ e, bodyToStan env b = .raises e) → bodyToNode env b = .returns
+
+theorem pyval_ok_of_safe (env : Env) (h : FallbackSafe env) (st : St) (b : Body) (ctx : Obj) (sec : Sec) :
+    (safeToStanPyval env st b ctx sec).1.isOk = true := by
+  cases hr : (safeToStanPyval env st b ctx sec).1 with
+  | ok _ => rfl
+  | raises e' =>
+    obtain ⟨hs, hn⟩ := (pyval_raises_iff env st b ctx sec e').mp hr
+    rw [h b hs] at hn; cases hn
+
+theorem pyvalList_ok_of_safe (env : Env) (h : FallbackSafe env) (obj : Obj) (sec : Sec) :
+    ∀ (ks : List Nat) (st : St), (pyvalList env obj sec st ks).1.isOk = true
+  | [], _ => rfl
+  | k :: ks, st => by
+    have h1 := pyval_ok_of_safe env h st (.user k) obj sec
+    unfold pyvalList
+    split
+    · rename_i e st' heq; rw [heq] at h1; cases h1
+    · rename_i s st' heq
+      have h2 := pyvalList_ok_of_safe env h obj sec ks st'
+      split
+      · rename_i e st'' heq2; rw [heq2] at h2; cases h2
+      · rfl
+
+/-
+Full statement — FALSE of the code at HEAD (`colorized_pyval_fallback` calls `doc.to_node()` without a
+handler; a `type` field processed by --process-types, or any google/numpy type, is a
+ParsedTypeDocstring whose `to_node` raises NotImplementedError):
+
+  theorem type_total (env : Env) (st : St) (obj : Obj) : (type2stan env st obj).1.isOk = true
+
+see `typed_failure_escapes` / `type_counterexample` (replayed on the real code: known finding
+`type2stan:fallback-raises`).
+-/
+
+theorem type_total_partial (env : Env) (h : FallbackSafe env) (st : St) (obj : Obj) :
+    (type2stan env st obj).1.isOk = true := by
+  simp only [type2stan]
+  split
+  · rfl
+  · rename_i b _
+    have h1 := pyval_ok_of_safe env h (getParsedType env st obj).2 b obj secAnnotation
+    split
+    · rfl
+    · rename_i e st' heq; rw [heq] at h1; cases h1
+
+theorem constant_total_partial (env : Env) (h : FallbackSafe env) (st : St) (obj : Obj) :
+    (formatConstant env st obj).1.isOk = true :=
+  pyval_ok_of_safe env h st _ obj secConstant
+
+theorem class_signature_total_partial (env : Env) (h : FallbackSafe env) (st : St) (obj : Obj) :
+    (formatClassSignature env st obj).1.isOk = true :=
+  pyvalList_ok_of_safe env h obj _ _ st
+
+theorem decorators_total_partial (env : Env) (h : FallbackSafe env) (st : St) (obj : Obj) :
+    (formatDecorators env st obj).1.isOk = true :=
+  pyvalList_ok_of_safe env h obj _ _ st
+
+/-- the general form of the defect: whenever the type shown for an object is a ParsedTypeDocstring
+(`Body.typed`) and its `to_stan` raises, `type2stan` lets NotImplementedError out -/
+theorem typed_failure_escapes (env : Env) (st : St) (obj : Obj) (k : Nat) (e : Exc)
+    (hb : (getParsedType env st obj).1 = some (.typed k)) (hs : env.typedToStan k = .raises e) :
+    (type2stan env st obj).1 = .raises .notImplemented := by
+  simp [type2stan, hb, safeToStanPyval, bodyToStan, bodyToNode, hs]
+
+/-- an Attribute whose docstring has a `type` field, with --process-types on, whose type renderer fails -/
+def envType : Env :=
+  { envCx with processtypes := true, isAttribute := fun _ => true, toNode := fun _ => .returns,
+               parser := fun _ _ _ => .returns (.user 1 [⟨.typ, none, .user 7, 0⟩]) [],
+               typedToStan := fun _ => .raises (.other 3) }
+
+/-- the exception a result carries -/
+def excOf {α : Type} : Res α → Option Exc
+  | .ok _ => none
+  | .raises e => some e
+
+theorem type_counterexample :
+    excOf (type2stan envType stCx 0).1 = some .notImplemented ∧ (type2stan envType stCx 0).2.reports = [] ∧
+    (formatDocstring envType stCx 0).1.isOk = true := by
+  decide
+
+example : FallbackSafe { envCx with toNode := fun _ => .returns, typedToStan := fun k => .returns (.opaque k) } := by
+  intro b hb
+  cases b with
+  | user k => rfl
+  | typed k => obtain ⟨e, he⟩ := hb; simp [bodyToStan] at he
+
+/-- `get_parsed_type` on an Attribute reads the LAST `type` field of the attribute's own docstring and
+caches it; a second call returns the cached value without touching anything -/
+theorem getParsedType_cached (env : Env) (st : St) (obj : Obj) (b : Body)
+    (hp : ((getParsedType env st obj).2.objs obj).ptype = some b) :
+    getParsedType env (getParsedType env st obj).2 obj = (some b, (getParsedType env st obj).2) := by
+  generalize (getParsedType env st obj).2 = S at hp ⊢
+  simp [getParsedType, hp]
+
+/-
+Full statement — FALSE of the code at HEAD (search.py `format_docstring` handles only
+NotImplementedError from `to_node`):
+
+  theorem search_total (env : Env) (st : St) (obj : Obj) : (searchDocstring env st obj).1.isOk = true
+-/
+
+/-- the search-index text of an object is produced unless `to_node` raises something else than
+NotImplementedError — then that exception escapes (the whole run aborts while building the index) -/
+theorem search_raises_iff (env : Env) (st : St) (obj : Obj) :
+    (searchDocstring env st obj).1.isOk = false ↔
+      ∃ src pd e, (ensureParsed env st obj).1 = some src ∧
+        ((ensureParsed env st obj).2.objs obj).parsed = some pd ∧ pdToNode env pd = .raises e ∧ e ≠ .notImplemented := by
+  have hs := ensureParsed_some env st obj
+  cases hsrc : (ensureParsed env st obj).1 with
+  | none => simp [searchDocstring, hsrc, Res.isOk]
+  | some src =>
+    obtain ⟨hp, _⟩ := hs src hsrc
+    cases hpd : ((ensureParsed env st obj).2.objs obj).parsed with
+    | none => simp [hpd] at hp
+    | some pd =>
+      cases hn : pdToNode env pd with
+      | returns => simp [searchDocstring, hsrc, hpd, hn, Res.isOk]
+      | raises e => by_cases he : e = .notImplemented <;> simp [searchDocstring, hsrc, hpd, hn, he, Res.isOk]
+
+theorem search_total_partial (env : Env)
+    (h1 : ∀ k e, env.toNode k = .raises e → e = .notImplemented)
+    (h2 : ∀ t e, env.plainToNode t = .raises e → e = .notImplemented) (st : St) (obj : Obj) :
+    (searchDocstring env st obj).1.isOk = true := by
+  cases hr : (searchDocstring env st obj).1.isOk with
+  | true => rfl
+  | false =>
+    obtain ⟨src, pd, e, _, _, hn, he⟩ := (search_raises_iff env st obj).mp hr
+    exfalso; apply he
+    cases pd with
+    | plain t => exact h2 t e hn
+    | stanOnly s => simp [pdToNode] at hn; exact hn.symm
+    | user k fs => exact h1 k e hn
+
+/-- witness (replayed on the real code: known finding `search:to_node-exception-escapes`): the parser
+succeeds, `to_node` raises ValueError: body, summary and toc are produced, the search text is not -/
+theorem search_counterexample :
+    (searchDocstring envCx stCx 0).1.isOk = false ∧ (formatDocstring envCx stCx 0).1.isOk = true ∧
+    (formatToc envCx stCx 0).1.isOk = true := by
+  decide
+
+/-- what ANY of the rendering calls may change, loosely: only `obj`, the object its docstring comes
+from, and (for `extract_fields`) the attributes its variable fields name -/
+structure Loose (T : Obj → Prop) (st st' : St) : Prop where
+  docstring : ∀ x, (st'.objs x).docstring = (st.objs x).docstring
+  objs : ∀ x, ¬ T x → st'.objs x = st.objs x
+  errors_mono : ∀ p ∈ st.errors, p ∈ st'.errors
+  errors_new : ∀ p ∈ st'.errors, p ∈ st.errors ∨ T p.2
+  reports : ∃ new, st'.reports = st.reports ++ new ∧
+      ∀ r ∈ new, T r.obj ∧ (r.sec, r.obj) ∉ st.errors ∧ (r.sec, r.obj) ∈ st'.errors
+
+theorem Frame.loose {T : Obj → Prop} {src : Obj} {sec : Sec} {a b : St} (h : Frame T src sec a b)
+    (T' : Obj → Prop) (hT : ∀ x, T x → T' x) (hs : T' src) : Loose T' a b := by
+  refine ⟨h.docstring, ?_, h.errors_mono, ?_, ?_⟩
+  · intro x hx
+    have h0 : ¬ T x := fun c => hx (hT x c)
+    have hne : x ≠ src := fun c => hx (c ▸ hs)
+    have e1 := h.docstring x
+    have e2 := h.parsed x h0
+    have e3 := h.summary x h0 hne
+    have e4 := h.ptype x h0
+    cases hb : b.objs x
+    cases ha : a.objs x
+    simp_all
+  · intro p hp
+    rcases h.errors_new p hp with h' | h'
+    · exact .inl h'
+    · exact .inr (by rw [h']; exact hs)
+  · obtain ⟨new, e, p⟩ := h.reports
+    refine ⟨new, e, fun r hr => ?_⟩
+    obtain ⟨x1, x2, x3, x4⟩ := p r hr
+    exact ⟨by rw [x1]; exact hs, by rw [x1, x2]; exact x3, by rw [x1, x2]; exact x4⟩
+
+theorem Loose.trans {T : Obj → Prop} {a b c : St} (h1 : Loose T a b) (h2 : Loose T b c) : Loose T a c := by
+  refine ⟨fun x => (h2.docstring x).trans (h1.docstring x), fun x hx => (h2.objs x hx).trans (h1.objs x hx),
+          fun p hp => h2.errors_mono p (h1.errors_mono p hp), ?_, ?_⟩
+  · intro p hp
+    rcases h2.errors_new p hp with h | h
+    · exact h1.errors_new p h
+    · exact .inr h
+  · obtain ⟨n1, e1, p1⟩ := h1.reports
+    obtain ⟨n2, e2, p2⟩ := h2.reports
+    refine ⟨n1 ++ n2, by rw [e2, e1, List.append_assoc], fun r hr => ?_⟩
+    rcases List.mem_append.mp hr with h | h
+    · obtain ⟨x1, x2, x3⟩ := p1 r h
+      exact ⟨x1, x2, h2.errors_mono _ x3⟩
+    · obtain ⟨x1, x2, x3⟩ := p2 r h
+      exact ⟨x1, fun hc => x2 (h1.errors_mono _ hc), x3⟩
+
+/-- the objects a call of entry point `op` on `obj` may write or report against -/
+def xTouched (env : Env) (st : St) (op : XOp) (obj : Obj) : Obj → Prop := fun x =>
+  x = obj ∨ x = sourceOf env st obj ∨
+    (op = .core .extract ∧ ∃ d, (st.objs obj).docstring = some d ∧
+      x ∈ splitTargets (pdFields (parseDocstring env st obj d obj).1))
+
+theorem loose_pyvalList (T : Obj → Prop) (env : Env) (obj : Obj) (sec : Sec) (hT : T obj) :
+    ∀ (ks : List Nat) (st : St), Loose T st (pyvalList env obj sec st ks).2
+  | [], st => (Frame.refl T obj sec st).loose T (fun _ h => h) hT
+  | k :: ks, st => by
+    have h1 := (frame_pyval T env st (.user k) obj sec).loose T (fun _ h => h) hT
+    unfold pyvalList
+    split
+    · rename_i e st' heq; rw [heq] at h1; exact h1
+    · rename_i s st' heq
+      rw [heq] at h1
+      have h2 := loose_pyvalList T env obj sec hT ks st'
+      split
+      · rename_i e st'' heq2; rw [heq2] at h2; exact h1.trans h2
+      · rename_i ss st'' heq2; rw [heq2] at h2; exact h1.trans h2
+
+theorem frame_getParsedType (env : Env) (st : St) (obj : Obj) :
+    Frame (Only obj) (sourceOf env st obj) 0 st (getParsedType env st obj).2 := by
+  have hf := frame_ensureParsed env st obj
+  simp only [getParsedType]
+  split
+  · exact Frame.refl _ _ _ _
+  · split
+    · split
+      · exact hf
+      · split
+        · exact Frame.trans hf (frame_setPType _ _ _ _ _ _ rfl)
+        · exact hf
+    · exact Frame.refl _ _ _ _
+
+/-- `Docstring.x_isolation`: every rendering call — the five of `step` and type2stan, constant value,
+signature, class signature, decorators, search text — leaves every object other than `obj`, its
+docstring source and (extract_fields) the named attributes completely unchanged, files reports only
+against those, and never un-reports anything -/
+theorem loose_xstep (env : Env) (st : St) (op : XOp) (obj : Obj) :
+    Loose (xTouched env st op obj) st (xstep env st op obj).2 := by
+  cases op with
+  | core o =>
+    have hf := frame_step env st o obj
+    refine hf.loose _ ?_ ?_
+    · intro x hx
+      cases o <;> simp only [touchedOf, Only] at hx <;> simp at hx
+      all_goals first
+        | exact .inl hx
+        | (rcases hx with h | h
+           · exact .inl h
+           · exact .inr (.inr ⟨rfl, h⟩))
+    · cases o <;> simp [srcOfOp, xTouched]
+  | typ =>
+    simp only [xstep, type2stan]
+    have h1 := (frame_getParsedType env st obj).loose (xTouched env st .typ obj)
+      (fun x hx => .inl hx) (.inr (.inl rfl))
+    split
+    · exact h1
+    · rename_i b _
+      have h2 := (frame_pyval (Only obj) env (getParsedType env st obj).2 b obj secAnnotation).loose
+        (xTouched env st .typ obj) (fun x hx => .inl hx) (.inl rfl)
+      split
+      · rename_i s st' heq; rw [heq] at h2; exact h1.trans h2
+      · rename_i e st' heq; rw [heq] at h2; exact h1.trans h2
+  | const =>
+    exact (frame_pyval (Only obj) env st _ obj secConstant).loose _ (fun x hx => .inl hx) (.inl rfl)
+  | sig =>
+    exact (signature_total env st obj).2.loose _ (fun x hx => .inl hx) (.inl rfl)
+  | classSig => exact loose_pyvalList _ env obj _ (.inl rfl) _ st
+  | decorators => exact loose_pyvalList _ env obj _ (.inl rfl) _ st
+  | search =>
+    have hf := (frame_ensureParsed env st obj).loose (xTouched env st .search obj)
+      (fun x hx => .inl hx) (.inr (.inl rfl))
+    simp only [xstep, searchDocstring]
+    split
+    · exact hf
+    · split
+      · exact hf
+      · split
+        · exact hf
+        · split <;> exact hf
+
+/-- … in particular: a failure while rendering anything about `obj` never changes what is shown or
+reported for an unrelated object `B` -/
+theorem x_isolation (env : Env) (st : St) (op : XOp) (obj B : Obj) (hB : ¬ xTouched env st op obj B) :
+    (xstep env st op obj).2.objs B = st.objs B ∧
+    (∀ sec, reportsOf (xstep env st op obj).2 sec B = reportsOf st sec B) ∧
+    (∀ sec, (sec, B) ∈ (xstep env st op obj).2.errors ↔ (sec, B) ∈ st.errors) := by
+  have h := loose_xstep env st op obj
+  refine ⟨h.objs B hB, fun sec => ?_, fun sec => ⟨fun hm => ?_, h.errors_mono _⟩⟩
+  · obtain ⟨new, e, p⟩ := h.reports
+    unfold reportsOf
+    rw [e, List.filter_append]
+    have : new.filter (fun r => decide (r.sec = sec ∧ r.obj = B)) = [] := by
+      rw [List.filter_eq_nil_iff]
+      intro r hr hc
+      simp only [decide_eq_true_eq] at hc
+      exact hB (hc.2 ▸ (p r hr).1)
+    rw [this, List.append_nil]
+  · rcases h.errors_new _ hm with h' | h'
+    · exact h'
+    · exact absurd h' hB
+
+/-- … and an (object, section) pair already reported is never reported again, by any of the calls -/
+theorem x_reported_once (env : Env) (st : St) (op : XOp) (obj : Obj) (sec : Sec) (o : Obj)
+    (hm : (sec, o) ∈ st.errors) :
+    reportsOf (xstep env st op obj).2 sec o = reportsOf st sec o := by
+  obtain ⟨new, e, p⟩ := (loose_xstep env st op obj).reports
+  unfold reportsOf
+  rw [e, List.filter_append]
+  have : new.filter (fun r => decide (r.sec = sec ∧ r.obj = o)) = [] := by
+    rw [List.filter_eq_nil_iff]
+    intro r hr hc
+    simp only [decide_eq_true_eq] at hc
+    exact (p r hr).2.1 (by rw [hc.1, hc.2]; exact hm)
+  rw [this, List.append_nil]
 
 /-! ## epytext: the anchor-uniquifying loop of `_slugify` terminates — given distinct candidates -/
 
